@@ -59,6 +59,36 @@ CLAIMED.update({
    technique='contract-based deductive verification with ghost event hooks on channel/clock operations and heap-ownership hooks; loop invariants; z3/cvc5'),
 })
 
+PRIOFUNCS = "the whole scheduling goroutine of v2/priority and v1 priority: New/prepare (v1: updateInputs, addPriority, addInput, removeInput, removePriority, clearActual), main, loop, base, waitCalcTactic, calcTactic, calcVacants, calcTacticByAddUpToStrategic, calcTacticBase, updateUncrowded, recalcTactic, updateUseful, updateUsefulLikeUncrowded, prioritize, io, iou, send, markInputAsDrained, increase/decreaseActual, decreaseTactic, resetTactic, getOneFeedback, getLimitedFeedback, waitZeroActual, isZeroActual, isDrainedInputs, safeDivide, safeCalcDistributionQuantity, calcDistributionQuantity"
+GH2 = "contract-based deductive verification: ghost event hooks on channel operations, map-sum (msum) lemma instances, loop invariants, calls by contract; z3/cvc5"
+CLAIMED.update({
+ "C01": dict(category="proof",
+   text="Ghost counter gInfl = (items sent on the output) - (releases consumed), changed only by the channel events themselves. The send-event hook requires gInfl < HandlersQuantity, i.e. the property statement; it is proved from the data-structure invariant msum(actual) == gInfl and the round invariant msum(actual) + msum(tactic) <= H carried through " + PRIOFUNCS + ". Releases arrive as arbitrary values at arbitrary receives, every select branch is explored, the divider is an untrusted function value checked only by safeDivide: so every interleaving, release order and arrival pattern is covered. v1: invariants re-proved across addInput/removeInput. The simplified disciplines (concurrent Handle calls) are NOT covered by this check (handlers are separate goroutines; see DESIGN.md).",
+   design_ref="DESIGN.md §7 C01, Appendix A",
+   note=TB + "a release is sent once per delivered item and only for delivered items (environment protocol); v1: the three unchecked divisions (updateInputs/addInput/removeInput call the divider without safeDivide) are assumed to obey the sum rule - the property's own hypothesis; one accumulation (picked += ...) is assumed not to wrap (listed in the evidence).",
+   technique=GH2),
+ "C07": dict(category="proof",
+   text="Safety half: the close(output)/close(err) hooks (v2) and the breaker.Complete hook (v1, what makes GracefulStop/Stop return) require 'nothing in flight (gInfl == 0)' and 'every configured input was observed closed (ghost set gClosedIn, set only by a receive that returned !opened) or a divider fault / stop occurred'; the send hook on the error channel requires a divider fault, so with a sum-preserving divider no non-nil error is ever sent. NOT decided: that termination does happen promptly (liveness); the simplified disciplines' 'every Handle returned' clause.",
+   design_ref="DESIGN.md §7 C07, §9",
+   note=TB + "partial: 'only after' is proved, 'promptly' is not decidable by contracts; release protocol as for C01.",
+   technique=GH2),
+ "C14": dict(category="proof",
+   text="Fair/FairDivider: for every distinct list, dividend and pre-filled map (sum + dividend < 2^64): msum' == msum + dividend; entry j gets exactly dividend div n + [j < dividend mod n]; every key outside the list unchanged. Rate/RateDivider: conservation and frame on all three exits, and - with float64 operations uninterpreted but monotone (assumed axioms) - increments non-increasing along a strictly descending list. v1 and v2 are proved against the same post-conditions over the same uninterpreted float term, so equal inputs give equal maps. NOT decided: 'each Rate increment within n/2 of the exact proportional share' is a floating-point rounding bound (no solver here decides it, see DESIGN.md).",
+   design_ref="DESIGN.md §7 C14",
+   note=TB + "float64 uninterpreted with monotonicity axioms for u2f/fmul/fround/f2u (specs/externals.spec); SumPriorities' accumulation assumed not to wrap.",
+   technique="contract-based deductive verification: loop invariants over map sums and quantified per-entry facts; nonlinear integer arithmetic; z3/cvc5"),
+ "C15": dict(category="proof",
+   text="Calling convention: the contract of the function type Divider (priorities strictly descending, all configured, dividend <= HandlersQuantity, v2 distribution non-nil) is an obligation at every call through a Divider value; updateUncrowded/updateUseful/updateUsefulLikeUncrowded are proved to build strictly descending sub-lists. Fail-safe: the ghost flag gDivErr is defined by the divider-call hook from the map before/after the call (non-zero added total != dividend), safeDivide must return ErrDividerBad when it is set, every caller propagates it, the send hook requires !gDivErr (no delivery after a fault), the capacity bound of C01 is proved with the untrusted divider, close requires nothing in flight. Constructor (v2): a creation-time fault returns ErrDividerBad and every listed priority must have a share >= 1. Two genuine defects were found by these obligations and repaired (known_findings.txt).",
+   design_ref="DESIGN.md §7 C15, §8.2, §8.5",
+   note=TB + "v1: the unchecked divisions are assumed honest (see C01); SortPriorities (closure over sort.SliceStable) has a trusted contract; 'every configured priority appears in the list' is not proved (needs an existential invariant).",
+   technique=GH2),
+ "C17": dict(category="proof",
+   text="State transformers of v1 AddInput/RemoveInput: addInput ensures the channel is registered under the priority (replacing any previous one) with Drained reset; removeInput ensures the priority is gone from the inputs table and from the configured set, so - every input receive being on inputs[q].Channel with q configured - the removed channel is never read again; both leave the in-flight accounting (actual) untouched and re-establish the full discipline invariant (capacity, divider convention), i.e. across any sequence of add/replace/remove/re-add; removePriority (in-place filter) keeps order and removes exactly the priority. Argued, not proved: 'on return' (the request channels are unbuffered and served by the scheduling goroutine before its next input receive); that an added priority is listed (existential invariant).",
+   design_ref="DESIGN.md §7 C17",
+   note=TB + "see C01; hand-off by Go channel semantics.",
+   technique=GH2),
+})
+
 NA = {
  "C19": "termination of goroutines over all schedules is a liveness property; the VC generator proves partial correctness of sequential code only (DESIGN.md §9)",
 }
